@@ -1306,9 +1306,13 @@ def _rule_T5_progress(ctx, rid, run, cfg, W, zero, svar):
                     fe = ast.parse(ft, mode='eval').body
                 except SyntaxError:
                     continue
+                # not any(a < b) is all(a >= b); not any(a <= b) is all(a > b), which is stronger
+                stronger = {ast.GtE: ast.LtE, ast.LtE: ast.GtE}.get(type(c.ops[0]))
                 if isinstance(fe, ast.Call) and dotted(fe.func) in ('np.any', 'any') and fe.args \
                         and isinstance(fe.args[0], ast.Compare) and len(fe.args[0].ops) == 1 and \
-                        want is not None and isinstance(fe.args[0].ops[0], want) and \
+                        want is not None and (isinstance(fe.args[0].ops[0], want) or (
+                            stronger is not None and
+                            isinstance(fe.args[0].ops[0], stronger))) and \
                         unparse(fe.args[0].left) == unparse(c.left) and \
                         unparse(fe.args[0].comparators[0]) == unparse(c.comparators[0]):
                     if dotted(c.left) in INT_COUNTERS:
